@@ -10,7 +10,7 @@ var lim = kernel.Limits{MaxSteps: 400, SettleSteps: 300}
 
 // Specs lists the checks this world binary serves.
 func Specs() []kernel.Spec {
-	return []kernel.Spec{
+	return lockSpecs([]kernel.Spec{
 		{Prop: "C08", Mk: New(Mode{Prop: "C08", Faults: true, BadReqs: true, Reads: true, Submits: true, Oracle: oracleC08}), Limits: lim},
 		{Prop: "C01", Mk: New(Mode{Prop: "C01", Submits: true, LostReply: true, Oracle: oracleC01}), Limits: lim},
 		// the same submission oracle against an instance that keeps issuance chains outside the backend
@@ -20,7 +20,7 @@ func Specs() []kernel.Spec {
 		{Prop: "C14", Mk: New(Mode{Prop: "C14", External: true, Submits: true, Reads: true, ReadWeights: []int{1, 0, 0, 8, 4, 0}, Oracle: oracleC14, Final: finalC14}), Limits: lim},
 		{Prop: "C15", Mk: NewCfg(), Limits: lim},
 		{Prop: "C08sweep", Mk: NewSweep(), Limits: lim, Cases: len(SweepCases())},
-	}
+	})
 }
 
 func TestSim(t *testing.T) { kernel.Main(t, "ctfe", Specs()) }
